@@ -5,12 +5,15 @@ package props
 import (
 	"bytes"
 	"fmt"
+	"os"
 	"path/filepath"
 	"sort"
 	"strings"
 	"testing"
 
+	"github.com/jhalter/mobius/hotline"
 	"github.com/jhalter/mobius/verifhooks"
+	"gopkg.in/yaml.v3"
 	"pgregory.net/rapid"
 
 	"verif/harness/evid"
@@ -425,6 +428,44 @@ func c18prop(ev *evid.Rec) func(rt *rapid.T) {
 						}
 					}
 					// the invariant that follows compares the whole tree with the model, which did not change
+				},
+				"operatorEdit": func(rt *rapid.T) {
+					// the operator edits the news file by hand (removes one top-level item) and has the server reload it:
+					// afterwards the server holds what the file holds, nothing of what it held before
+					s.rt = rt
+					var tops []string
+					for k := range s.root.kids {
+						tops = append(tops, k)
+					}
+					sort.Strings(tops)
+					if len(tops) == 0 {
+						rt.Skip()
+					}
+					victim := rapid.SampledFrom(tops).Draw(rt, "remove")
+					rec("operator removes %q from the file and reloads", victim)
+					path := filepath.Join(w.Cfg, "ThreadedNews.yaml")
+					b, err := os.ReadFile(path)
+					if err != nil {
+						s.fail("harness: %v", err)
+					}
+					var doc hotline.ThreadedNews // (the file's own schema: an editor's tool, not an oracle)
+					if err := yaml.Unmarshal(b, &doc); err != nil {
+						s.fail("harness: news file does not parse: %v", err)
+					}
+					if _, ok := doc.Categories[victim]; !ok {
+						s.fail("harness: top-level item %q is not in the news file (%d items)", victim, len(doc.Categories))
+					}
+					delete(doc.Categories, victim)
+					out, err := yaml.Marshal(&doc)
+					if err != nil {
+						s.fail("harness: %v", err)
+					}
+					must(os.WriteFile(path, out, 0o644))
+					if err := w.News.Load(); err != nil {
+						s.fail("reload of the edited news file failed: %v", err)
+					}
+					delete(s.root.kids, victim)
+					s.deletes++
 				},
 				"reload": func(rt *rapid.T) {
 					s.rt = rt
